@@ -17,12 +17,10 @@ func init() {
 		"symbolic links already present in the base that point outside B (BasePathFS itself refuses Symlink/Readlink/EvalSymlinks)",
 		"contents of error strings beyond the translated Path/Old/New fields",
 	}
-	register(&Rule{ID: "C10.in", Floor: 20,
+	register(&Rule{ID: "C10.in", Floor: 18,
 		Text: "every string argument of every call on the base file system is the direct result of ToBasePath applied to a parameter of the enclosing method (table of non-path string parameters: user name, temp-name pattern), and the base is never handed to a generic helper",
 		Run:  c10In})
-	register(&Rule{ID: "C10.out", Floor: 30, Also: []string{"C14"},
-		// C14: Glob through BasePathFS returns the matches translated back, each by the wrapper's own translation
-		AlsoOnly: map[string][]string{"C14": {"Glob"}}, AlsoFloor: map[string]int{"C14": 1},
+	register(&Rule{ID: "C10.out", Floor: 28,
 		Text: "every path the base returns (Getwd, Abs, Glob, File.Name, ...) passes through FromBasePath before it is returned, and every error through FromPathError (FromLinkError for Link/Rename/Symlink, which are documented to return *LinkError)",
 		Run:  c10Out})
 	register(&Rule{ID: "C10.confine", Floor: 2,
